@@ -110,6 +110,12 @@ def client_reads(tier, rng):
                     # history: the unit did not answer the previous call; the prediction for the next reply is the same
                     t.run(uid, ["nothing"])
                     hist = [["nothing"]]
+                elif j % 3 == 1:
+                    # history: the unit was silent twice, then answered normally: it is an ordinary unit again
+                    t.run(uid, ["nothing"])
+                    t.run(uid, ["nothing"])
+                    t.run(uid, ["own"])
+                    hist = [["nothing"], ["nothing"], ["own"]]
                 x = t.run(uid, [rng.choice(["own", "ownExc"])], exact=1)
                 x["history"] = hist
                 try:
